@@ -22,6 +22,22 @@ def fstring_parts(js):
     return out
 
 
+def pattern_parts(e):
+    """f-string or concatenation -> list of ('lit', text) / ('var', source); re.escape(x) counts as the variable x"""
+    if isinstance(e, ast.JoinedStr):
+        return fstring_parts(e)
+    if isinstance(e, ast.BinOp) and isinstance(e.op, ast.Add):
+        l_, r_ = pattern_parts(e.left), pattern_parts(e.right)
+        return None if l_ is None or r_ is None else l_ + r_
+    if isinstance(e, ast.Constant) and isinstance(e.value, str):
+        return [("lit", e.value)]
+    if isinstance(e, ast.Call) and src(e.func) in ("re.escape", "escape") and len(e.args) == 1:
+        return [("var", src(e.args[0]))]
+    if isinstance(e, ast.Name):
+        return [("var", e.id)]
+    return None
+
+
 def run(ctx):
     m = ctx.model
     mod = m.module(SL)
@@ -51,11 +67,11 @@ def run(ctx):
     ctx.check("R26.1", f"{wfn.key}::index is checked to be an int", int_guard, None, wfn)
     # reader pattern
     matches = [c for c in ast.walk(rfn.node) if isinstance(c, ast.Call) and src(c.func) in ("re.match", "re.fullmatch", "re.search")]
-    if len(matches) != 1 or not isinstance(matches[0].args[0], ast.JoinedStr):
-        ctx.und("R26.1", f"{rfn.key}::reader pattern", "re.match(f'...') not found", rfn)
+    if len(matches) != 1 or pattern_parts(matches[0].args[0]) is None or isinstance(matches[0].args[0], (ast.Name, ast.Constant)):
+        ctx.und("R26.1", f"{rfn.key}::reader pattern", "re.match(<pattern built from the base name>) not found", rfn)
         return
     mcall = matches[0]
-    pparts = fstring_parts(mcall.args[0])
+    pparts = pattern_parts(mcall.args[0])
     anchored_start = src(mcall.func) in ("re.match", "re.fullmatch")
     anchored_end = src(mcall.func) == "re.fullmatch" or (pparts and pparts[-1][0] == "lit" and pparts[-1][1].endswith("$"))
     key = f"{rfn.key}::pattern accepts every writer name"
@@ -219,11 +235,11 @@ def tmp_vs_pattern(ctx, rule, m):
     std = m.func(SL, "_save_to_disk")
     matches = [c for c in ast.walk(rfn.node) if isinstance(c, ast.Call) and src(c.func) in ("re.match", "re.fullmatch", "re.search")]
     key = f"{std.key}::temporary names are rejected by the reader's pattern"
-    if len(matches) != 1 or not isinstance(matches[0].args[0], ast.JoinedStr):
+    if len(matches) != 1 or pattern_parts(matches[0].args[0]) is None or isinstance(matches[0].args[0], (ast.Name, ast.Constant)):
         ctx.und(rule, key, "reader pattern not found", rfn)
         return
     mcall = matches[0]
-    pparts = fstring_parts(mcall.args[0])
+    pparts = pattern_parts(mcall.args[0])
     anchored_start = src(mcall.func) in ("re.match", "re.fullmatch")
     anchored_end = src(mcall.func) == "re.fullmatch" or (pparts and pparts[-1][0] == "lit" and pparts[-1][1].endswith("$"))
     tmp = tmp_name_template(m, std)
@@ -657,3 +673,66 @@ _run_c26d = run
 def run(ctx):  # noqa: F811
     _run_c26d(ctx)
     r26_11(ctx, ctx.model)
+
+
+# --------------------------------------------------------------------------------------------------------------- R26.12
+def r26_12(ctx, m):
+    R = "R26.12"
+    ctx.rule(R, "regular expressions that select the files of a stored list (sample_list.py): every part of the pattern that comes from a "
+                "variable (the file name base chosen by the user) passes through re.escape, and the pattern covers the whole file name "
+                "(re.fullmatch, or an explicit end anchor): an unescaped base with '+', '(', '[' finds nothing after save, '.' in it "
+                "matches the files of a sibling list, and an open end accepts `x.0.pickle.bak` - load then returns another list or fails",
+             floor=1)
+    mod = m.module(SL)
+    n = 0
+    for fi in mod.all_functions:
+        for c in walk_no_nested(fi.node):
+            if not (isinstance(c, ast.Call) and isinstance(c.func, ast.Attribute) and src(c.func.value) == "re"
+                    and c.func.attr in ("match", "fullmatch", "search", "compile", "findall", "finditer", "sub", "split") and c.args):
+                continue
+            pat = c.args[0]
+            # resolve a local name once
+            if isinstance(pat, ast.Name):
+                defs = [st.value for st in walk_no_nested(fi.node) if isinstance(st, ast.Assign) and any(src(t) == pat.id for t in st.targets)]
+                if len(defs) == 1:
+                    pat = defs[0]
+            dyn, lits = [], []
+
+            def parts(e):
+                if isinstance(e, ast.JoinedStr):
+                    for v in e.values:
+                        if isinstance(v, ast.FormattedValue):
+                            dyn.append(v.value)
+                        else:
+                            parts(v)
+                elif isinstance(e, ast.BinOp) and isinstance(e.op, ast.Add):
+                    parts(e.left)
+                    parts(e.right)
+                elif isinstance(e, ast.Constant) and isinstance(e.value, str):
+                    lits.append(e.value)
+                else:
+                    dyn.append(e)
+            parts(pat)
+            if not dyn:
+                continue
+            n += 1
+            ctx.saw_func(fi)
+            raw = [d for d in dyn if not (isinstance(d, ast.Call) and src(d.func) in ("re.escape", "escape"))]
+            key = f"{fi.key}::`{short(c, 80)}` escapes its variable parts and matches the whole name"
+            whole = c.func.attr == "fullmatch" or (lits and lits[-1].endswith(("$", "\\Z")) and dyn and not isinstance(pat, ast.Name))
+            why = []
+            if raw:
+                why.append(f"`{src(raw[0])}` enters the pattern unescaped")
+            if not whole:
+                why.append(f"re.{c.func.attr} leaves the end of the name open")
+            ctx.check(R, key, not why, "; ".join(why) if why else "escaped, whole-name match", fi, c)
+    if not n:
+        ctx.und(R, f"{mod.relpath}::patterns built from variables", "none found", mod.relpath)
+
+
+_run_c26e = run
+
+
+def run(ctx):  # noqa: F811
+    _run_c26e(ctx)
+    r26_12(ctx, ctx.model)
